@@ -324,6 +324,8 @@ def l12(repo, res, canon):
                     elif isinstance(st, ast.AugAssign) and isinstance(st.target, ast.Name):
                         pairs.append((st.target.id, taint_of(st.value, taint)))
                     elif isinstance(st, (ast.For, ast.comprehension)):
+                        if st is cand:
+                            continue          # the candidates themselves: not what THIS proposal hands on
                         t = taint_of(st.iter, taint)
                         pairs += [(y.id, t) for y in ast.walk(st.target) if isinstance(y, ast.Name)]
                     elif isinstance(st, ast.Call) and isinstance(st.func, ast.Attribute) and st.func.attr in MUT \
